@@ -244,6 +244,11 @@ pub fn run(ctx: &Ctx) -> i32 {
             for r in 0..ctx.tier.pick(4, 12) {
                 run_policy(case, &reference, Policy::Random(ctx.seed ^ (ci as u64) << 8 ^ r), fe + r as usize, ev);
             }
+            // a sink that drives another fst builder on the same thread inside every write call
+            run_policy(case, &reference, Policy::Reentrant { cap: 1 + ci % 9 }, fe, ev);
+            ev.count("container:reentrant-sink");
+            // a moderate run of consecutive Interrupted in-process (the long storms run in a child process, see below)
+            run_policy(case, &reference, Policy::InterruptStorm { at: ci % (w.max(1)), n: 300, cap: 2 + ci % 5 }, fe + 1, ev);
             containers(case, &reference, ev, &tmp);
             ev.distinct_extra += ev.evaluations - before;
             ev.fps.insert(case.fp());
@@ -272,15 +277,77 @@ pub fn run(ctx: &Ctx) -> i32 {
             }
         }
     });
+    // "Interrupted any number of times": very long runs of consecutive Interrupted. A stack overflow or abort cannot be
+    // caught in-process, so these run in a child process; death by signal is the observation.
+    let mut ev = ev;
+    let exe = std::env::current_exe().ok();
+    for (si, n) in [100_000u64, 3_000_000].iter().enumerate() {
+        ev.eval(Some(crate::rng::fnv_u64(0x570e, *n)));
+        let out = exe.as_ref().and_then(|e| std::process::Command::new(e).arg("C07-storm").arg("--seed").arg((ctx.seed + si as u64).to_string()).arg(n.to_string()).output().ok());
+        match out {
+            Some(o) => {
+                let text = String::from_utf8_lossy(&o.stdout).to_string();
+                if o.status.success() && text.contains("STORM-OK") {
+                    ev.count("interrupt-storm-children-ok");
+                } else if text.contains("STORM-MISMATCH") {
+                    ev.violate("sink-bytes-differ", format!("after {} consecutive Interrupted returns the sink bytes differ from the in-memory build: {}", n, text.lines().find(|l| l.contains("STORM-MISMATCH")).unwrap_or("")), J::U(*n));
+                } else {
+                    use std::os::unix::process::ExitStatusExt;
+                    let err = String::from_utf8_lossy(&o.stderr).to_string();
+                    ev.violate("crash-under-interrupt-storm", format!("the builder process died (exit {:?}, signal {:?}) while a sink returned Interrupted {} times in a row: {}", o.status.code(), o.status.signal(), n, err.lines().last().unwrap_or("")), J::U(*n));
+                }
+            }
+            None => ev.count("interrupt-storm-child-not-started(inconclusive)"),
+        }
+    }
     finish(
         ctx,
         ev,
         Spec {
             level: "fault_enumeration",
-            rule: "one evaluation = one complete build of one key sequence on one instrumented sink schedule; after the header and after EVERY insert bytes_written() is compared with the bytes the sink has accepted, and at the end the sink bytes are compared with the in-memory build, reopened, verify()'d, CRC-checked by the bit-wise reference and read back; schedules per FST: caps 1..16, a single one-byte accept at every write-call position p (quick: <=150 evenly spaced positions when there are more), Interrupted at every position p, every 2nd/3rd call, every 5th position at once, acceptance scripts, seeded random lengths+interrupts, prefilled Vec/Cursor, BufWriter(1|7|8192), BufWriter over a short-accepting sink, Cursor, File; FSTs: fan-out palette (incl. >32 transitions, so a 256-byte index write exists), single bytes, random maps, exhaustive-family samples, two corpora; non-trivial = every schedule; distinct = (FST, schedule), distinct by construction",
+            rule: "one evaluation = one complete build of one key sequence on one instrumented sink schedule; after the header and after EVERY insert bytes_written() is compared with the bytes the sink has accepted, and at the end the sink bytes are compared with the in-memory build, reopened, verify()'d, CRC-checked by the bit-wise reference and read back; schedules per FST: caps 1..16, a single one-byte accept at every write-call position p (quick: <=150 evenly spaced positions when there are more), Interrupted at every position p, every 2nd/3rd call, every 5th position at once, acceptance scripts, seeded random lengths+interrupts, a sink that drives another fst builder inside every write call, runs of 300 consecutive Interrupted in-process and of 10^5 and 3*10^6 in a child process (death by signal = violation), prefilled Vec/Cursor, BufWriter(1|7|8192), BufWriter over a short-accepting sink, Cursor, File; FSTs: fan-out palette (incl. >32 transitions, so a 256-byte index write exists), single bytes, random maps, exhaustive-family samples, two corpora; non-trivial = every schedule; distinct = (FST, schedule), distinct by construction",
             assumptions: vec!["the sink follows the io::Write contract (accepts 1..=len bytes or returns an error)".into()],
-            floors: vec![("log:short-accepts", 10_000), ("log:interrupted", 10_000), ("container:file", 5), ("container:prefilled-vec", 50), ("max:largest-single-write", 256)],
+            floors: vec![("log:short-accepts", 10_000), ("log:interrupted", 10_000), ("container:file", 5), ("container:prefilled-vec", 50), ("max:largest-single-write", 256), ("container:reentrant-sink", 50), ("interrupt-storm-children-ok", 2)],
             exhaustive: Some(!ctx.quick()),
         },
     )
+}
+
+
+/// `fstmon C07-storm --seed S <n>`: build on a sink that returns Interrupted n times in a row at several write calls
+pub fn storm_child(seed: u64, n: u64) -> i32 {
+    let mut rng = crate::rng::Rng::new(seed, 0x570e);
+    let keys = gen::random_keys(&mut rng, 300, b"abcdefgh", 6);
+    let kv = gen::assign(keys, 5, &mut rng);
+    let mut b = Builder::memory();
+    for (k, v) in &kv {
+        b.insert(k, *v).unwrap();
+    }
+    let reference = b.into_inner().unwrap();
+    for at in [0usize, 3, 200].iter() {
+        let sink = Sink::new(Policy::InterruptStorm { at: *at, n, cap: 3 });
+        let mut b = match Builder::new(sink.clone()) {
+            Ok(b) => b,
+            Err(e) => {
+                println!("STORM-MISMATCH new failed: {}", e);
+                return 1;
+            }
+        };
+        for (k, v) in &kv {
+            if let Err(e) = b.insert(k, *v) {
+                println!("STORM-MISMATCH insert failed: {}", e);
+                return 1;
+            }
+        }
+        if let Err(e) = b.finish() {
+            println!("STORM-MISMATCH finish failed: {}", e);
+            return 1;
+        }
+        if sink.data() != reference {
+            println!("STORM-MISMATCH at={} sink has {} bytes, reference {}", at, sink.data().len(), reference.len());
+            return 1;
+        }
+    }
+    println!("STORM-OK n={}", n);
+    0
 }
